@@ -172,6 +172,7 @@ def gen_mat_key(rng, phs, names, groups, malformed):
 def gen_data(rng, n, malformed, cap=None):
     r = rng.random()
     if malformed and r < 0.08: return ['m', [[float(rng.choice(VALS)) for _ in range(max(1, n))]]]
+    if r < 0.05: return ['n', rng.choice([0, -0.0, 0.0])]     # int zero, negative zero: all are falsy and delete the entry
     if r < 0.45: return ['n', float(rng.choice(VALS))]
     m = n
     if malformed and rng.random() < 0.15: m = max(0, n + rng.choice([-1, 1]))
@@ -767,28 +768,101 @@ def flat(sp, n):
     if sp[0] == 'one': return list(sp[1])
     return [i for ps in sp[1] for i in ps]
 
+def declared(case, cop_ok, impl_index):
+    """name -> position / member positions IN THE USER'S ORDER, and mol compositions in that order, computed from
+    the declarations of the case (not read back from the implementation)"""
+    idx = {}
+    for i, c in enumerate(case['chems']): idx[c['CAS']] = i
+    for i, c in enumerate(case['chems']): idx[c['ID']] = i
+    for i, c in enumerate(case['chems']):
+        for nm in set(c['names']):
+            if nm and sum(1 for c2 in case['chems'] if nm in c2['names']) == 1: idx[nm] = i
+    mw = [c['MW'] for c in case['chems']]
+    comps = {}
+    for c, ok in zip(case['cops'], cop_ok):
+        if c[0] == 'alias':
+            src, al = c[1], c[2]
+            if src in idx and (ok or isinstance(idx[src], list)) and (al not in idx or idx[al] == idx[src]):
+                idx[al] = idx[src]
+        elif ok:
+            name, members, comp, wt = c[1], c[2], c[3], c[4]
+            pos = [idx.get(m) for m in members]
+            if any(not isinstance(q_, int) for q_ in pos):       # malformed member list: nothing to say
+                idx[name] = impl_index.get(name); comps.pop(name, None); continue
+            x = np.ones(len(members)) if comp is None else np.array(comp, float)
+            if wt: x = x / np.array([mw[q_] for q_ in pos])
+            idx[name] = pos
+            comps[name] = x / x.sum() if len(x) else x
+    return idx, comps
+
+def probe_case(case, index, comps):
+    """systematic writes on data whose entries are all non-zero: scalars 0 / 0.0 / -0.0 and a non-zero scalar through
+    every key form (names, groups, tuples and lists of names, tuples mixing chemicals and groups in both orders, the
+    ellipsis; phase-qualified for multi-phase data)"""
+    n = len(case['chems'])
+    ids = [c['ID'] for c in case['chems']]
+    base = [float(i) + 1.5 for i in range(n)]
+    names = [k for k, v in index.items() if isinstance(v, int)]
+    groups = [g for g in comps if isinstance(index.get(g), list) and len(set(index[g])) == len(index[g])]
+    keys = [kS(x) for x in ids] + [kS(x) for x in names if x not in ids][:4] + [kS(g) for g in groups]
+    keys += [kT([kS(x) for x in ids]), kL([kS(x) for x in reversed(ids)]), KE]
+    if names: keys.append(kT([kS(names[-1])]))
+    for g in groups:
+        outside = [x for x in ids if index[x] not in index[g]]
+        keys.append(kT([kS(g)]))
+        for x in outside[:2]:
+            keys += [kT([kS(x), kS(g)]), kT([kS(g), kS(x)]), kL([kS(x), kS(g)])]
+        for g2 in groups:
+            if g2 != g and not set(index[g]) & set(index[g2]):
+                keys.append(kT([kS(g), kS(g2)]))
+                rest = [x for x in ids if index[x] not in index[g] + index[g2]]
+                if rest: keys.append(kT([kS(g), kS(rest[0]), kS(g2)]))
+    phs = ['g', 'l']
+    ixs = [{'kind': 'c', 'stream': False, 'data': list(base)},
+           {'kind': 'm', 'stream': False, 'phases': phs, 'data': [list(base), [2 * v for v in base]]}]
+    ops = []
+    for k in keys:
+        for val in (0, 0.0, -0.0, 5.0):
+            ops.append(['set', 0, KE, ['v', list(base)]])
+            ops.append(['set', 0, k, ['n', val]])
+            ops.append(['set', 1, kS('l'), ['v', [2 * v for v in base]]])
+            ops.append(['set', 1, kT([kS('l'), k]), ['n', val]])
+    return dict(case, ixs=ixs, ops=ops, probe=True)
+
 def oracle(case):
-    """name-keyed access vs positional access on the dense data, along the whole history"""
+    """name-keyed access vs positional access on the dense data, along the whole history, then the
+    systematic probe writes of probe_case on the same property package"""
+    msg = oracle_core(case)
+    if msg or case.get('probe'): return msg
+    chems, cerr_ = build_package(case)
+    if chems is None: return None
+    cop_ok = []
+    for c in case['cops']:
+        try: apply_cop(chems, c); cop_ok.append(True)
+        except Exception: cop_ok.append(False)
+    index, comps = declared(case, cop_ok, dict(chems._index))
+    msg = oracle_core(probe_case(case, index, comps))
+    return None if msg is None else 'probe-' + msg
+
+def oracle_core(case):
     from thermosteam.base import SparseVector, SparseArray
     chems, cerr_ = build_package(case)
     if chems is None: return None
+    cop_ok = []
     for c in case['cops']:
-        try: apply_cop(chems, c)
-        except Exception: pass
-    index = dict(chems._index)
-    comps = {k: np.array(v, float) for k, v in chems._group_mol_compositions.items()}
+        try: apply_cop(chems, c); cop_ok.append(True)
+        except Exception: cop_ok.append(False)
+    index, comps = declared(case, cop_ok, dict(chems._index))
+    index = {k: v for k, v in index.items() if v is not None}
     n = chems.size
-    # every name of a chemical resolves to its single position
-    for i, ch in enumerate(chems.tuple):
-        for nm in {ch.ID, ch.CAS} | {a for a in ch.aliases if a in index}:
-            owners = [j for j, c2 in enumerate(chems.tuple) if nm in ({c2.ID, c2.CAS} | set(c2.aliases))]
-            if owners != [i]: continue        # shared/dropped name
-            if nm in comps: continue
-            try:
-                got = chems.index(nm)
-            except Exception as e:
-                return f'names:{type(e).__name__}: name {nm!r} of chemical {i} does not resolve: {e}'
-            if got != i: return f'names:wrong-position: name {nm!r} of chemical {i} resolves to {got}'
+    # every declared name resolves to the declared position(s), group members in the user's order
+    for nm, v in index.items():
+        try:
+            got = chems.index(nm)
+        except Exception as e:
+            return f'names:{type(e).__name__}: declared name {nm!r} does not resolve: {e}'
+        if isinstance(v, int):
+            if got != v: return f'names:wrong-position: name {nm!r} of chemical {v} resolves to {got}'
     ixs = build_indexers(case, chems)
     ix = env()['ix']
     for num, op in enumerate(case['ops']):
@@ -837,8 +911,9 @@ def oracle(case):
                 if len(set(fl)) != len(fl): valid = False
                 width = n if sp[0] == 'all' else (len(sp[1]) if sp[0] == 'many' or sp[2] else 1)
                 if op[3][0] == 'v' and (len(data) != width or (sp[0] == 'one' and not sp[2])): valid = False
-                if op[3][0] == 'v' and len(rows) > 1 and sp[0] != 'many': valid = False   # per-row semantics of column assignment (C09)
-                if op[3][0] == 'n' and len(rows) > 1 and sp[0] == 'many' and any(len(ps) != 1 or isinstance(index[k], list) for ps, k in zip(sp[1], ck)): valid = False
+                ell = phases is not None and isinstance(key, (tuple, list)) and len(key) == 2 and key[0] is ...
+                if op[3][0] == 'v' and ell and sp[0] != 'many': valid = False   # per-row semantics of column assignment (C09)
+                if op[3][0] == 'n' and ell and sp[0] == 'many' and any(len(ps) != 1 or isinstance(index[k], list) for ps, k in zip(sp[1], ck)): valid = False
                 if sp[0] != 'all' and any((isinstance(index[k], list) and k not in comps) for k in ([ck] if isinstance(ck, str) else ck)): valid = False
             try:
                 o[key] = data
